@@ -218,6 +218,13 @@ fn regret_match(regret: &[f64], mag: &[f64], w: f64, tie: TieRule) -> (Vec<f64>,
     if scale > 0.0 && max > -eps && pos < eps {
         fragile = Some("positive regret sum within margin of zero");
     }
+    // the sign of a single regret decides whether its action gets a (tiny) positive probability
+    // or exactly none; that probability is the own reach of everything below, where it can be
+    // all the weight an average strategy ever receives. A regret that is zero or a rounding
+    // residue relative to what was added to and subtracted from it has no robust sign.
+    if fragile.is_none() && pos > 0.0 && regret.iter().zip(mag.iter()).any(|(r, m)| *m > 0.0 && r.abs() <= MARGIN * m) {
+        fragile = Some("sign of one regret within margin of zero");
+    }
     if pos > 0.0 {
         return (regret.iter().map(|r| if *r > 0.0 { r / pos } else { 0.0 }).collect(), fragile, false);
     }
@@ -333,6 +340,8 @@ pub fn run(game: &RefGame, cfg: RunCfg) -> RefResult {
     let mut reach_c = vec![0.0; n];
     let mut reach_p = vec![[0.0; 2]; n];
     let mut val = vec![0.0; n];
+    // expectation of |payoff| along the same paths: the size of the terms whose sum is val
+    let mut aval = vec![0.0; n];
     let mut chosen = vec![usize::MAX; n];
     'outer: for t in 1..=iters {
         // weight of this iteration in the average strategy, relative to the last iteration
@@ -484,7 +493,8 @@ pub fn run(game: &RefGame, cfg: RunCfg) -> RefResult {
                         val[i] = match upd {
                             Some(1) => -*pay,
                             _ => *pay,
-                        }
+                        };
+                        aval[i] = pay.abs();
                     }
                     RNode::Chance { info, kids } => {
                         if method == Method::Full {
@@ -493,8 +503,14 @@ pub fn run(game: &RefGame, cfg: RunCfg) -> RefResult {
                                 .zip(game.chance_probs[*info].iter())
                                 .map(|(k, pr)| pr * val[*k])
                                 .sum();
+                            aval[i] = kids
+                                .iter()
+                                .zip(game.chance_probs[*info].iter())
+                                .map(|(k, pr)| pr * aval[*k])
+                                .sum();
                         } else {
                             val[i] = val[kids[chosen[i]]];
+                            aval[i] = aval[kids[chosen[i]]];
                         }
                     }
                     RNode::Player { p, info, kids } => {
@@ -502,24 +518,29 @@ pub fn run(game: &RefGame, cfg: RunCfg) -> RefResult {
                         match upd {
                             None => {
                                 let v: f64 = kids.iter().zip(st.strat.iter()).map(|(k, s)| s * val[*k]).sum();
+                                let av: f64 = kids.iter().zip(st.strat.iter()).map(|(k, s)| s * aval[*k]).sum();
                                 let cf = reach_c[i] * reach_p[i][1 - *p];
                                 let sign = if *p == 0 { 1.0 } else { -1.0 };
                                 for (a, k) in kids.iter().enumerate() {
                                     st.regret[a] += sign * cf * (val[*k] - v) * noise.next();
-                                    st.mag[a] += (cf * val[*k]).abs() + (cf * v).abs();
+                                    st.mag[a] += cf * (aval[*k] + av);
                                 }
                                 val[i] = v;
+                                aval[i] = av;
                             }
                             Some(u) if u == p => {
                                 let v: f64 = kids.iter().zip(st.strat.iter()).map(|(k, s)| s * val[*k]).sum();
+                                let av: f64 = kids.iter().zip(st.strat.iter()).map(|(k, s)| s * aval[*k]).sum();
                                 for (a, k) in kids.iter().enumerate() {
                                     st.regret[a] += (val[*k] - v) * noise.next();
-                                    st.mag[a] += val[*k].abs() + v.abs();
+                                    st.mag[a] += aval[*k] + av;
                                 }
                                 val[i] = v;
+                                aval[i] = av;
                             }
                             Some(_) => {
                                 val[i] = val[kids[chosen[i]]];
+                                aval[i] = aval[kids[chosen[i]]];
                             }
                         }
                     }
